@@ -30,3 +30,23 @@ func vJSONNoDup(a []byte) bool      { panic("gosym intrinsic") } // no object re
 func vJSONValid(a []byte) bool      { panic("gosym intrinsic") }
 
 func vGetwd() string { panic("gosym intrinsic") } // the working directory (model: /cwd/w; native: os.Getwd)
+
+// JSON document construction (symbolic presence without forking)
+type vJNode struct{}
+
+func vJObj() vJ                                  { panic("gosym intrinsic") }
+func vJAdd(o vJ, present bool, name string, v vJ) { panic("gosym intrinsic") } // member present iff `present`
+func vJArr(elems []vJ) vJ                        { panic("gosym intrinsic") }
+func vJStr(s string) vJ                          { panic("gosym intrinsic") }
+func vJBool(b bool) vJ                           { panic("gosym intrinsic") }
+func vJNull() vJ                                 { panic("gosym intrinsic") }
+func vJInt(i int64) vJ                           { panic("gosym intrinsic") }
+func vJFloat(f float64) vJ                       { panic("gosym intrinsic") }
+func vJBytes(v vJ) []byte                        { panic("gosym intrinsic") }
+func vFinite(f float64) bool                     { panic("gosym intrinsic") }
+
+// vAssertJSONEq asserts, member by member, that two JSON texts denote the same value
+func vAssertJSONEq(a, b []byte, what string) { panic("gosym intrinsic") }
+
+// vBound: a harness bound that must suffice (unwinding assertion); a failure is INCONCLUSIVE, never a violation
+func vBound(ok bool, msg string) { panic("gosym intrinsic") }
